@@ -27,10 +27,15 @@ def runChain : List VFun → VFun
   | [], v => some (.ok v)
   | f :: fs, v => bindT (f v) (runChain fs)
 
-/-- the column kinds all of whose validators are translated -/
+/-- the column kinds all of whose validators are translated: all of them (kept as a predicate so that a kind added to
+    the model later has to be listed) -/
 def translatedKind : ColT → Bool
-  | .float | .decimalString | .pickle | .uuid | .json => false
   | _ => true
+
+/-- `dataType=Decimal` is what SODecimalStringCol passes to `SOStringCol.createValidators` -/
+def strDec : ColT → Bool
+  | .decimalString => true
+  | _ => false
 
 /-- `createValidators()` of the column class of a kind -/
 def chainOf : ColT → List String
@@ -45,11 +50,15 @@ def chainOf : ColT → List String
   | .enum _ => chainEnum
   | .blob => chainBLOB
   | .fkInt | .fkIntS | .fkStr => chainForeignKey
-  | _ => []
+  | .float => chainFloat
+  | .decimalString => chainDecimalString
+  | .pickle => chainPickle
+  | .uuid => chainUuid
+  | .json => chainJSON
 
 /-- `from_python` of a validator class as the column kind configures it -/
 def fromOf (T : ColT) (cls : String) : VFun :=
-  if cls = "StringValidator" then runV (cfgString false) stringFromPython
+  if cls = "StringValidator" then runV (cfgString (strDec T)) stringFromPython
   else if cls = "UnicodeStringValidator" then runV Cfg.base unicodeFromPython
   else if cls = "IntValidator" then runV cfgInt intFromPython
   else if cls = "BoolValidator" then runV Cfg.base boolFromPython
@@ -66,10 +75,15 @@ def fromOf (T : ColT) (cls : String) : VFun :=
   else if cls = "TimeValidator" then runV (cfgDtSub fmtTimeStr) timeFromPython
   else if cls = "DecimalValidator" then runV Cfg.base decFromPython
   else if cls = "BinaryValidator" then runV Cfg.base binFromPython
+  else if cls = "FloatValidator" then runV Cfg.base floatFromPython
+  else if cls = "DecimalStringValidator" then runV cfgDecStr decStrFromPython
+  else if cls = "PickleValidator" then runV Cfg.base pickleFromPython
+  else if cls = "UuidValidator" then runV Cfg.base uuidFromPython
+  else if cls = "JSONValidator" then runV Cfg.base jsonFromPython
   else fun _ => Option.none
 
 def toOf (T : ColT) (cls : String) : VFun :=
-  if cls = "StringValidator" then runV (cfgString false) stringToPython
+  if cls = "StringValidator" then runV (cfgString (strDec T)) stringToPython
   else if cls = "UnicodeStringValidator" then runV Cfg.base unicodeToPython
   else if cls = "IntValidator" then runV cfgInt intToPython
   else if cls = "BoolValidator" then runV Cfg.base boolToPython
@@ -83,6 +97,11 @@ def toOf (T : ColT) (cls : String) : VFun :=
   else if cls = "TimeValidator" then runV (cfgDtSub fmtTimeStr) timeToPython
   else if cls = "DecimalValidator" then runV Cfg.base decToPython
   else if cls = "BinaryValidator" then runV Cfg.base binToPython
+  else if cls = "FloatValidator" then runV Cfg.base floatToPython
+  else if cls = "DecimalStringValidator" then runV cfgDecStr decStrToPython
+  else if cls = "PickleValidator" then runV Cfg.base pickleToPython
+  else if cls = "UuidValidator" then runV Cfg.base uuidToPython
+  else if cls = "JSONValidator" then runV Cfg.base jsonToPython
   else fun _ => Option.none
 
 /-- `col.from_python`: the chain in list order -/
@@ -94,5 +113,69 @@ def chainToPy (T : ColT) : VFun := runChain ((chainOf T).reverse.map (toOf T))
 /-- write through the translated chain, store, fetch, read through the translated chain -/
 def readBackT (T : ColT) (x : PyVal) : Option (Codec.Res PyVal) :=
   bindT (chainToDb T x) fun y => bindT (some (Codec.roundtrip T y)) (chainToPy T)
+
+/-! ### `_SO_selectInit`: the read loop over the columns -/
+
+/-- a validator outcome as an interface answer -/
+def resToR : Option (Codec.Res PyVal) → R PyVal
+  | some (.ok v) => .ok v
+  | some .invalid => .exc .invalid
+  | some .reject => .exc .other
+  | some .unmodelled => .unmodelled
+  | Option.none => .stuck
+
+/-- a class whose columns have the given names and kinds; `col.to_python` is the TRANSLATED chain of the kind -/
+def cfgSel (cols : List (Str × ColT)) : Cfg :=
+  { Cfg.base with
+      ncols := cols.length,
+      colName := fun i => (cols[i]?.map (·.1)).getD [],
+      colHasTo := fun i => (cols[i]?.map fun c => !(chainOf c.2).isEmpty).getD false,
+      colToPy := fun i v =>
+        match cols[i]? with
+        | some c => resToR (chainToPy c.2 v)
+        | Option.none => .stuck }
+
+/-- how `_SO_selectInit` ends: the instance attributes it assigned (name, value), in order, and the outcome -/
+inductive SelOut where
+  | ok (attrs : List (Str × PyVal))
+  | invalid (attrs : List (Str × PyVal))
+  | reject (attrs : List (Str × PyVal))
+  | unmodelled
+deriving DecidableEq, Repr
+
+/-- HAND MODEL of the read path: column by column `toPy` of the kind on the fetched value, stored under
+    `_SO_val_<name>`; the first failing conversion ends the loop (what was assigned stays); a row shorter or longer
+    than the column list is cut to the shorter (`zip`) -/
+def selectInitM : List (Str × ColT) → List PyVal → List (Str × PyVal) → SelOut
+  | c :: cs, v :: vs, acc =>
+    match Codec.toPy c.2 v with
+    | .ok y => selectInitM cs vs (acc ++ [(sValPrefix ++ c.1, y)])
+    | .invalid => .invalid acc
+    | .reject => .reject acc
+    | .unmodelled => .unmodelled
+  | [], _, acc => .ok acc
+  | _ :: _, [], acc => .ok acc
+
+/-- a log entry -/
+def encAttr (a : Str × PyVal) : Val := .tuple [.py (.str a.1), .py a.2]
+
+def decAttr : Val → Option (Str × PyVal)
+  | .tuple [.py (.str n), .py v] => some (n, v)
+  | _ => Option.none
+
+def decLog : List Val → Option (List (Str × PyVal))
+  | [] => some []
+  | x :: l => (decAttr x).bind fun a => (decLog l).map (a :: ·)
+
+def Res.selView : Res → Option SelOut
+  | .norm env => (decLog (logOf env)).map .ok
+  | .exc env .invalid => (decLog (logOf env)).map .invalid
+  | .exc env _ => (decLog (logOf env)).map .reject
+  | .unmodelled => some .unmodelled
+  | _ => Option.none
+
+/-- run the translated `_SO_selectInit(self, row)` of a class with the given columns on a fetched row -/
+def runSel (cols : List (Str × ColT)) (row : List PyVal) : Option SelOut :=
+  (Block.exec (iface (cfgSel cols)) (Env.ofArgs [selfV, .tuple (row.map .py)]) selectInit).selView
 
 end SqlObjVerif.PyCodec
